@@ -9,6 +9,7 @@
 #include "iora/core/logger.hpp"
 #include "iora/parsers/json.hpp"
 #include <condition_variable>
+#include <cstdio>
 #include <fstream>
 #include <mutex>
 #include <set>
@@ -227,17 +228,38 @@ private:
   {
     try
     {
-      std::ofstream file(_filename);
-      if (file)
+      // Write the new contents next to the file and rename over it: opening
+      // _filename itself truncates the only copy, so a crash before (or in the
+      // middle of) the write left an empty or unparseable store behind.
+      const std::string tmpName = _filename + ".tmp";
+      bool written = false;
       {
-        std::string jsonData = _store.dump(2);
-        file << jsonData;
-        iora::core::Logger::debug("JsonFileStore: Wrote " + std::to_string(jsonData.length()) +
-                                  " bytes to " + _filename);
+        std::ofstream file(tmpName, std::ios::trunc);
+        if (file)
+        {
+          std::string jsonData = _store.dump(2);
+          file << jsonData;
+          file.flush();
+          written = file.good();
+          iora::core::Logger::debug("JsonFileStore: Wrote " + std::to_string(jsonData.length()) +
+                                    " bytes to " + tmpName);
+        }
+        else
+        {
+          iora::core::Logger::error("JsonFileStore: Failed to open " + tmpName + " for writing");
+        }
+      }
+      if (written)
+      {
+        if (std::rename(tmpName.c_str(), _filename.c_str()) != 0)
+        {
+          iora::core::Logger::error("JsonFileStore: Failed to replace " + _filename);
+          std::remove(tmpName.c_str());
+        }
       }
       else
       {
-        iora::core::Logger::error("JsonFileStore: Failed to open " + _filename + " for writing");
+        std::remove(tmpName.c_str());
       }
     }
     catch (const std::exception &e)
